@@ -151,10 +151,8 @@ def regen():
         return False, "building translator failed:\n" + log
     msgs = []
     allok = True
-    for mode, outf in (("constants", "RepoConstants.v"), ("walker", "WalkerSites.v"), ("locks", "LockSites.v")):
+    for mode, outf in (("constants", "RepoConstants.v"), ("walker", "WalkerSites.v"), ("locks", "LockSites.v"), ("codec", "CodecFields.v")):
         target = os.path.join(COQ, "Gen", outf)
-        if mode != "constants" and not os.path.exists(os.path.join(HARNESS, "cmd", "extract", mode + ".go")):
-            continue
         rc, o, e = sh([tool, mode, SRC, target], timeout=120)
         msgs.append(e.strip())
         if rc != 0:
